@@ -79,7 +79,15 @@ fn case(srv: &mut Srv, seed: u64, res: &mut CaseResult) -> R<()> {
 
     // pre-existing history in the handler's context (and noise elsewhere)
     let mut pre: Vec<Frame> = vec![];
+    // some histories contain time:N frames that have expired (virtual clock, advanced before the handler is
+    // registered) but were never collected: replay skips them and goes on with what follows
+    let with_expired = rng.chance(350);
+    let mut expired_ids: Vec<String> = vec![];
     for i in 0..rng.below(25) {
+        if with_expired && i % 5 == 1 {
+            let f = srv.must_append("pre", ctx, None, Some(json!({"expired": i})), Some(TTL::Time(Duration::from_millis(5))))?;
+            expired_ids.push(f.id.to_string());
+        }
         // (no evicting TTLs here: the expected list is built from what the monitor saw live)
         let ttl = if i % 7 == 3 { Some(TTL::Head(u32::MAX)) } else { None };
         pre.push(srv.must_append("pre", ctx, None, Some(json!({"i": i})), ttl)?);
@@ -105,6 +113,11 @@ fn case(srv: &mut Srv, seed: u64, res: &mut CaseResult) -> R<()> {
             res.inconclusive = Some("old instance never unregistered".into());
             return Ok(());
         }
+    }
+    if with_expired && !expired_ids.is_empty() {
+        let now = std::time::SystemTime::now().duration_since(std::time::UNIX_EPOCH).unwrap().as_millis() as u64;
+        srv.call(json!({"op": "clock", "ms": now + 60_000}))?;
+        res.count("histories_with_expired_uncollected_frames", 1);
     }
     let after_id: Option<Scru128Id> = if resume_kind == "after" && !pre.is_empty() { Some(pre[rng.below(pre.len())].id) } else { None };
     let resume_str = match (resume_kind, after_id) {
@@ -187,7 +200,10 @@ fn case(srv: &mut Srv, seed: u64, res: &mut CaseResult) -> R<()> {
             }
         }
     }
-    let outs: Vec<&Frame> = log.iter().filter(|f| f.topic == "h.out" && meta_str(f, "handler_id") == Some(&hid)).collect();
+    // expired history is neither required nor forbidden here (C09 decides that): out of both lists
+    must.retain(|f| !expired_ids.contains(&f.id.to_string()));
+    may.retain(|f| !expired_ids.contains(&f.id.to_string()));
+    let outs: Vec<&Frame> = log.iter().filter(|f| f.topic == "h.out" && meta_str(f, "handler_id") == Some(&hid) && !meta_str(f, "frame_id").map(|i| expired_ids.iter().any(|e| e == i)).unwrap_or(false)).collect();
     res.count("handler_invocations_checked", outs.len() as u64);
     res.count("frames_in_log", log.len() as u64);
     let seen: Vec<String> = outs.iter().map(|o| meta_str(o, "frame_id").unwrap_or("").to_string()).collect();
